@@ -166,21 +166,38 @@ def build_model(broken):
 
 
 def malformed_correspondence(seed, n=1500, shards=8):
-    """datacodec half of C04: run `harness-cql malformed n` (real decoders on mutated encodings, recover()) and compare the outcome
-    class ok/err/panic of every mutant with the model's decode_class inside coqc.
+    """datacodec half of C04: run `harness-cql malformed n` (real decoders on mutated encodings, recover()) and compare every mutant with the
+    model inside coqc.  Each mutant is decoded into an untyped destination (outcome class ok/err/panic against decode_class) and into typed
+    destinations - maps keyed by interface{} / arrays / structs holding interfaces / pointers, untyped containers, the representation the
+    value was encoded from - where the outcome AND the value left in the variable are compared with the Go-representation model g_decode.
+    A directed part (harness keyBases) runs map / set types whose key decodes to an unhashable Go value into every destination style.
     Returns dict(cases=, skipped=, panics=[records], mismatches=[ids], ok=bool, log=str, by_class={}).
-    The model statement to cite next to it: proofs/CqlContainerProofs.decode_no_panic (forall v t src, m_decode v t src <> PANIC)."""
+    The model statements to cite next to it: proofs/CqlContainerProofs.decode_no_panic (forall v t src, m_decode v t src <> PANIC) and
+    proofs/CqlGoValProofs.g_decode_no_panic (forall v t gt d src, g_decode v t gt d src <> PANIC)."""
     rc, recs, err = harness_records("malformed", [n], seed)
     ran = [r for r in recs if r["kind"] == "malformed"]
     skipped = [r for r in recs if r["kind"] == "malformed-skipped"]
     cls = {"ok": "COk", "err": "CErr", "panic": "CPanic"}
-    cases = [(r["id"], 'class_eqb (decode_class %d %s (Some (hx "%s"))) %s' % (r["ver"], r["type_coq"], r["hex"], cls.get(r["class"], "CPanic"))) for r in ran]
+    cases = []
+    for r in ran:
+        src = '(Some (hx "%s"))' % r["hex"]
+        if r.get("dest", "*interface {}") == "*interface {}":
+            cases.append((r["id"], 'class_eqb (decode_class %d %s %s) %s' % (r["ver"], r["type_coq"], src, cls.get(r["class"], "CPanic"))))
+        elif r.get("gty") and len(r.get("result_g", "")) <= 3 * MAX_HEX:
+            cases.append((r["id"], "g_dec_agrees %d %s %s (gzero %s) %s %s" % (r["ver"], r["type_coq"], r["gty"], r["gty"], src,
+                                                                               gobs(r["class"], r.get("was_null", False), r.get("result_g", "GVNilIface")))))
     ok, bad, log = eval_cases("Cases_C04_cql", [], cases, shards=shards)
     by = {}
     for r in ran:
         by[r["class"]] = by.get(r["class"], 0) + 1
-    return {"cases": len(ran), "skipped": len(skipped), "panics": [r for r in ran if r["class"] == "panic"], "mismatches": bad,
-            "ok": ok and rc == 0, "log": (err if rc != 0 else "") + log, "by_class": by, "records": {r["id"]: r for r in ran}}
+    panics = []
+    for r in ran:
+        if r["class"] == "panic":
+            # the caller (C04) prints type_cql / hex / ver of a panic record: name the destination with the type
+            panics.append(dict(r, type_cql="%s decoded into %s (%s; %s)" % (r["type_cql"], r.get("dest", "*interface {}"), r.get("mut", ""), r.get("err", "")[:120])))
+    return {"cases": len(ran), "skipped": len(skipped), "panics": panics, "mismatches": bad,
+            "ok": ok and rc == 0, "log": (err if rc != 0 else "") + log, "by_class": by, "records": {r["id"]: r for r in ran},
+            "typed_destinations": sum(1 for r in ran if r.get("dest", "*interface {}") != "*interface {}"), "compared_in_coq": len(cases)}
 
 
 def gobs(cls, was_null, g):
